@@ -19,14 +19,17 @@ CELL_KINDS = ['cubic', 'ortho', 'mono', 'hex60', 'hex120', 'truncoct', 'rhombdod
 # ------------------------------------------------------------------ generation
 
 def _gen_key(rng):
-    k = rng.weighted([('int', 3), ('negint', 2), ('slice', 4), ('rslice', 2), ('stepslice', 2), ('array', 3), ('mask', 2)])
+    k = rng.weighted([('int', 3), ('negint', 2), ('slice', 4), ('rslice', 2), ('stepslice', 2), ('array', 3), ('mask', 2),
+                      ('list', 2), ('negarray', 2), ('negslice', 2)])
     if k in ('int', 'negint'):
         return {'k': k, 'v': rng.below(1 << 12)}
     if k in ('slice', 'stepslice', 'rslice'):
         return {'k': k, 'a': rng.below(1 << 12), 'b': rng.below(1 << 12), 's': rng.choice([1, 2, 3]) if k != 'slice' else 1,
                 'open': rng.choice(['', 'a', 'b', 'ab'])}
-    if k == 'array':
+    if k in ('array', 'list', 'negarray'):
         return {'k': k, 'v': [rng.below(1 << 12) for _ in range(rng.randint(1, 6))]}
+    if k == 'negslice':
+        return {'k': k, 'a': rng.below(1 << 12), 'b': rng.below(1 << 12), 's': rng.choice([1, 1, 2])}
     return {'k': k, 'bits': rng.below(1 << 16) | 1}
 
 
@@ -101,6 +104,7 @@ def generate(check, rng, tier, run_index):
         elif k in ('set_lengths', 'set_angles'):
             o['cell'] = _gen_cell(rng)
             o['none'] = rng.chance(0.35)
+            o['form'] = rng.weighted([('array', 5), ('deficient', 3), ('list', 2)])
         elif k == 'save_load':
             o['fmt'] = rng.choice(CELL_FORMATS)
             o['few_atoms'] = rng.weighted([(0, 6), (1, 1), (2, 2), (3, 1)])     # boundary sizes: save only the first 1-3 atoms
@@ -225,6 +229,17 @@ def lengths_angles_of(V):
     return np.stack([la, lb, lc], 1), np.stack([ang(b, c, lb, lc), ang(c, a, lc, la), ang(a, b, la, lb)], 1)
 
 
+def _as_form(v, form, res):
+    """the value as the caller hands it over: an array, nested Python lists, or -- documented for a single frame --
+    with the frame axis left out"""
+    if form == 'deficient' and len(v) == 1:
+        res.probe('cell_assigned_without_frame_axis')
+        return v[0]
+    if form == 'list':
+        return v.tolist()
+    return v
+
+
 def resolve_key(key, n):
     k = key['k']
     if k == 'int':
@@ -245,6 +260,17 @@ def resolve_key(key, n):
         return slice(lo, hi, s)
     if k == 'array':
         return np.array([v % n for v in key['v']], dtype=int)
+    if k == 'list':
+        # a plain Python list, every other entry counted from the end
+        return [(v % n) if j % 2 == 0 else -1 - (v % n) for j, v in enumerate(key['v'])]
+    if k == 'negarray':
+        return np.array([-1 - (v % n) for v in key['v']], dtype=np.int32)
+    if k == 'negslice':
+        # both bounds counted from the end: t[-a:-b] / t[-a:]
+        a, b = sorted((1 + key['a'] % n, key['b'] % n), reverse=True)
+        if a == b:
+            b = 0
+        return slice(-a, (-b if b else None), key['s'])
     bits = key['bits']
     m = np.array([(bits >> (i % 16)) & 1 for i in range(n)], dtype=bool)
     if not m.any():
@@ -824,7 +850,7 @@ def execute(check, case, workdir):
                         R = rotation(op['rot'])
                         V = V @ R.T
                         res.probe('rotated_vectors_assigned')
-                    t.unitcell_vectors = V.astype(np.float32) if op['rot'] % 2 else V
+                    t.unitcell_vectors = V.astype(np.float32) if op['rot'] % 2 else V     # arrays only: the setter is documented for (n_frames, 3, 3) arrays and refuses lists
                     gl, ga = t.unitcell_lengths, t.unitcell_angles
                     res.log.append('%d %s m%d %s' % (stepno, kind, m.id, op['cell']['kind']))
                     if judge17:
@@ -847,11 +873,11 @@ def execute(check, case, workdir):
                 L, A = cell_arrays(op['cell'], m.n)
                 if kind == 'set_lengths':
                     val = None if op['none'] else L
-                    t.unitcell_lengths = None if val is None else val.copy()
+                    t.unitcell_lengths = None if val is None else _as_form(val.copy(), op.get('form'), res)
                     m.L = val
                 else:
                     val = None if op['none'] else A
-                    t.unitcell_angles = None if val is None else val.copy()
+                    t.unitcell_angles = None if val is None else _as_form(val.copy(), op.get('form'), res)
                     m.A = val
                 if (m.L is None) != (m.A is None):
                     res.probe('half_set_cell_reached')
@@ -933,6 +959,13 @@ def execute(check, case, workdir):
                 if op.get('few_atoms') and msrc.xyz.shape[1] > op['few_atoms'] and fmt not in ('pdb', 'gro', 'mdcrd'):
                     ts = ts.atom_slice(list(range(op['few_atoms'])))
                     res.probe('save_load_with_%d_atoms' % op['few_atoms'])
+                if fmt == 'rst7' and ts.n_atoms == 2:
+                    # a two-atom ASCII restart file is ambiguous by format: its 4th line is a cell or velocities, and the reader
+                    # (documented in amberrst.py) takes it for a cell only if some number is >= 60 -- a 60-degree cell that went
+                    # through float32 (59.99999) is legitimately read as velocities.  Same family as the one-atom mdcrd frame.
+                    fmt = 'ncrst'
+                    p = os.path.join(workdir, 'c%d.%s' % (stepno, fmt))
+                    flags = flags.replace('fmt=rst7', 'fmt=ncrst')
                 try:
                     ts.save(p)
                 except Exception as e:
